@@ -55,6 +55,18 @@ Theorem c03_noninterference_delivery : forall cf h e x s g,
 Proof. exact input_event_delivery. Qed.
 Print Assumptions c03_noninterference_delivery.
 
+(* ... and for any number of them: the accepted input after the history h ++ es is the accepted input
+   after h (same slots, pipeline, Group object, subscribers, media receivers) whenever every event
+   of es is, when it happens, about an input session other than the accepted input of the stream -
+   the history without those events. *)
+Theorem c03_noninterference_history : forall cf es h s g,
+  let st := fst (run fixed_tree cf init_state h) in
+  get_group st s = Some g -> all_foreign cf st s es ->
+  let st' := fst (run fixed_tree cf init_state (h ++ es)) in
+  exists g', get_group st' s = Some g' /\ sim g g' /\ g_subs g' = g_subs g /\ receivers st' g' = receivers st g.
+Proof. exact foreign_events_delivery. Qed.
+Print Assumptions c03_noninterference_history.
+
 (* F-10: on the pinned tree the end of a pull that never attached clears the accepted publisher *)
 Theorem c03_noninterference_refuted :
   exists cf st e x s g,
